@@ -185,7 +185,8 @@ def main():
             rec["replay_result"] = res
             json.dump(rec, open(path, "w"), indent=1, default=str)
             gname = ob["name"].rsplit("/", 1)[1]
-            if gname in res.get("violated", []):
+            vio = res.get("violated", [])
+            if gname in vio or gname.split("[")[0] in [v.split("[")[0] for v in vio]:
                 ob["replayed"] = True
                 if kf:
                     known_hits.append((kf, ob))
@@ -310,14 +311,15 @@ def main():
     if a.verbose:
         for o in all_obs:
             print("   ", o["status"], o["name"], o.get("reason", ""))
-    if errors:
-        for e in errors:
-            print(f"CHECKER-ERROR property={pid} {e}")
-        sys.exit(3)
+    for e in errors:
+        print(f"CHECKER-ERROR property={pid} {e}")
     if violations:
+        # a confirmed violation is reported even when some other counter-model did not reproduce
         for ob, path, suffix in violations:
             print(f"VIOLATION property={pid} replay={path}{suffix}")
         sys.exit(1)
+    if errors:
+        sys.exit(3)
     if undecided:
         for ob in undecided:
             print(f"UNDECIDED property={pid} obligation={ob['name']} reason={ob.get('reason')}")
